@@ -425,6 +425,24 @@ func c08Stores(c *Ctx, p *Prog, m *Model) {
 					if isBuiltinCall(x, "delete") || isBuiltinCall(x, "clear") {
 						probs = append(probs, fmt.Sprintf("delete/clear at %s", p.Pos(instrPos(x))))
 					}
+					// a slice view of a package-level array handed to a callee: the callee (runtime.Callers, copy, Read, an
+					// Append-style formatter) fills memory that every goroutine's records share
+					if _, isB := x.Common().Value.(*ssa.Builtin); !isB || isBuiltinCall(x, "copy") {
+						for ai, arg := range x.Common().Args {
+							if isBuiltinCall(x, "copy") && ai != 0 {
+								continue
+							}
+							sl, isSl := stripNoIface(arg).(*ssa.Slice)
+							if !isSl {
+								continue
+							}
+							if g, isG := sl.X.(*ssa.Global); isG && !underLock(x) {
+								if _, isArr := g.Type().(*types.Pointer).Elem().Underlying().(*types.Array); isArr {
+									probs = append(probs, fmt.Sprintf("hands a slice of the package-level array %s to %s at %s: the callee writes into memory shared by all goroutines and all records (a scratch buffer must be local to the call)", nm(g), callName(x), p.Pos(instrPos(x))))
+								}
+							}
+						}
+					}
 					if mn := invokeName(x); mn != "" && mn != "Key" && mn != "Value" {
 						// a mutating method of the attribute interface: the attribute objects of a record are the very
 						// objects held by the logger, its ancestors and the caller's slices
